@@ -177,6 +177,9 @@ func poolByName(name string, quick bool) *hist.Pool {
 	if name == "nested" {
 		return c02.NestPool()
 	}
+	if name == "hosts" {
+		return c02.HostPool()
+	}
 	return c02.PoolFor(quick)
 }
 
@@ -225,6 +228,9 @@ func permutations(ks []hist.Key, fn func([]hist.Key)) {
 
 func runPool(c *mc.Ctx, r *mc.Result, name string, p *hist.Pool, maxLive, permMax, maxStates int) {
 	fullCompare := 12000
+	if c.Quick() {
+		fullCompare = 4000
+	}
 	ops := p.Ops(false)
 	probes := probesFor(p)
 	r.Bounds["graph."+name] = fmt.Sprintf("BFS over methods %v patterns %v (%d ops), states with <=%d routes expanded; %d probes x 3 option profiles; all insertion permutations of sets <=%d", p.Methods, p.Patterns, len(ops), maxLive, len(probes), permMax)
@@ -365,6 +371,9 @@ func compareBody(p *hist.Pool, probes []Probe, bc c02.Case, force bool) string {
 			if bc.Commit {
 				end = "Commit"
 			}
+			if bc.Read != "" {
+				end = "Txn." + bc.Read + " then " + end
+			}
 			return fmt.Sprintf("two routers holding %s route differently (profile %s): %s\n    history: %v ; Txn{%v} %s\n    history tree:\n%s    canonical tree:\n%s", m, profileName(prof), d, bc.Path, bc.Body, end, indent(fox.VerifShape(h)), indent(fox.VerifShape(c1)))
 		}
 	}
@@ -387,34 +396,56 @@ func runBodies(c *mc.Ctx, r *mc.Result, name string, p *hist.Pool, seedMax, body
 		}
 		mu.Unlock()
 	})
-	r.Bounds[fmt.Sprintf("bodies.%s.%d", name, bodyLen)] = fmt.Sprintf("%d seeds (subsets <=%d) x all bodies of %d operations over %d operations inside one write transaction x {Commit, Abort}: tree dump compared with the canonical router's, probes on any difference", ns, seedMax, bodyLen, na)
+	r.Bounds[fmt.Sprintf("bodies.%s.%d", name, bodyLen)] = fmt.Sprintf("%d seeds (subsets <=%d) x all bodies of %d operations over %d operations inside one write transaction x {Abort, Commit, Txn.Iter then Commit, Txn.Snapshot then Commit}: tree dump compared with the canonical router's, probes on any difference", ns, seedMax, bodyLen, na)
 	if stopped {
 		r.NotExhaustive = append(r.NotExhaustive, "bodies "+name+" stopped by the time guard")
 	}
 }
 
 func run(c *mc.Ctx, r *mc.Result) {
+	// independent sub-runs, each with its own result, run concurrently and merged in a fixed order
+	var jobs []func(r *mc.Result)
+	add := func(f func(r *mc.Result)) { jobs = append(jobs, f) }
 	if c.Quick() {
-		runBodies(c, r, "prefixes", c02.PoolFor(true), 2, 2)
-		runBodies(c, r, "siblings", c02.SiblingPool(), 3, 2)
-		runBodies(c, r, "nested", c02.NestPool(), 2, 2)
+		add(func(r *mc.Result) { runPool(c, r, "prefixes", c02.PoolFor(true), 2, 3, 40000) })
+		add(func(r *mc.Result) { runPool(c, r, "siblings", c02.SiblingPool(), 4, 4, 8000) })
+		add(func(r *mc.Result) { runPool(c, r, "methods", c02.MethodPool(), 3, 3, 20000) })
+		add(func(r *mc.Result) { runPool(c, r, "nested", c02.NestPool(), 4, 4, 20000) })
+		add(func(r *mc.Result) { runPool(c, r, "hosts", c02.HostPool(), 3, 3, 20000) })
+		add(func(r *mc.Result) { runBodies(c, r, "prefixes", c02.PoolFor(true), 2, 2) })
+		add(func(r *mc.Result) { runBodies(c, r, "siblings", c02.SiblingPool(), 3, 2) })
+		add(func(r *mc.Result) { runBodies(c, r, "nested", c02.NestPool(), 2, 2) })
+		add(func(r *mc.Result) { runBodies(c, r, "hosts", c02.HostPool(), 2, 2) })
 	} else {
-		runBodies(c, r, "prefixes", c02.PoolFor(true), 3, 2)
-		runBodies(c, r, "siblings", c02.SiblingPool(), 4, 2)
-		runBodies(c, r, "nested", c02.NestPool(), 3, 2)
-		runBodies(c, r, "nested", c02.NestPool(), 2, 3)
-		runBodies(c, r, "siblings", c02.SiblingPool(), 2, 3)
+		add(func(r *mc.Result) { runPool(c, r, "prefixes", c02.PoolFor(true), 3, 4, 400000) })
+		add(func(r *mc.Result) { runPool(c, r, "methods", c02.MethodPool(), 4, 4, 100000) })
+		add(func(r *mc.Result) { runPool(c, r, "siblings", c02.SiblingPool(), 6, 5, 60000) })
+		add(func(r *mc.Result) { runPool(c, r, "nested", c02.NestPool(), 6, 5, 60000) })
+		add(func(r *mc.Result) { runPool(c, r, "hosts", c02.HostPool(), 5, 4, 60000) })
+		add(func(r *mc.Result) { runBodies(c, r, "prefixes", c02.PoolFor(true), 3, 2) })
+		add(func(r *mc.Result) { runBodies(c, r, "siblings", c02.SiblingPool(), 4, 2) })
+		add(func(r *mc.Result) { runBodies(c, r, "nested", c02.NestPool(), 3, 2) })
+		add(func(r *mc.Result) { runBodies(c, r, "hosts", c02.HostPool(), 3, 2) })
+		add(func(r *mc.Result) { runBodies(c, r, "nested", c02.NestPool(), 2, 3) })
+		add(func(r *mc.Result) { runBodies(c, r, "siblings", c02.SiblingPool(), 2, 3) })
 	}
-	if c.Quick() {
-		runPool(c, r, "prefixes", c02.PoolFor(true), 2, 3, 40000)
-		runPool(c, r, "siblings", c02.SiblingPool(), 4, 4, 8000)
-		runPool(c, r, "methods", c02.MethodPool(), 3, 3, 20000)
-		runPool(c, r, "nested", c02.NestPool(), 4, 4, 20000)
-	} else {
-		runPool(c, r, "methods", c02.MethodPool(), 4, 4, 100000)
-		runPool(c, r, "prefixes", c02.PoolFor(true), 3, 4, 400000)
-		runPool(c, r, "siblings", c02.SiblingPool(), 6, 5, 60000)
-		runPool(c, r, "nested", c02.NestPool(), 6, 5, 60000)
+	results := make([]*mc.Result, len(jobs))
+	var wg sync.WaitGroup
+	sem := make(chan struct{}, 3)
+	for i, j := range jobs {
+		wg.Add(1)
+		go func() {
+			defer wg.Done()
+			sem <- struct{}{}
+			defer func() { <-sem }()
+			rr := mc.NewResult()
+			j(rr)
+			results[i] = rr
+		}()
+	}
+	wg.Wait()
+	for _, rr := range results {
+		r.Merge(rr)
 	}
 }
 
